@@ -22,7 +22,7 @@
 //! (the leaked thread may spin and allocate; the driver starts a new process).
 
 use crate::project;
-use crate::{guarded_timeout, panic_json};
+use crate::{guarded, panic_json};
 use futures::stream::StreamExt;
 use incan::frontend::typechecker::TypeChecker;
 use incan_syntax::ast::{Declaration, ImportDecl, Program};
@@ -40,6 +40,60 @@ use tower_service::Service;
 
 const LIMIT_MS: u64 = 4_000;
 static TIMED_OUT: AtomicBool = AtomicBool::new(false);
+
+// ------------------------------------------------------------------ guarded calls on a persistent worker
+// (a fresh 256 MB-stack thread per call costs milliseconds; thousands of layouts x six collectors)
+type Job = Box<dyn FnOnce() -> Value + Send + 'static>;
+type JobResult = Result<Value, (String, String)>;
+struct Worker {
+    tx: std::sync::mpsc::Sender<Job>,
+    rx: std::sync::mpsc::Receiver<JobResult>,
+}
+static WORKER: std::sync::Mutex<Option<Worker>> = std::sync::Mutex::new(None);
+
+fn spawn_worker() -> Option<Worker> {
+    let (jtx, jrx) = std::sync::mpsc::channel::<Job>();
+    let (rtx, rrx) = std::sync::mpsc::channel::<JobResult>();
+    std::thread::Builder::new()
+        .stack_size(256 * 1024 * 1024)
+        .spawn(move || {
+            while let Ok(job) = jrx.recv() {
+                let r = guarded(job);
+                if rtx.send(r).is_err() {
+                    break;
+                }
+            }
+        })
+        .ok()?;
+    Some(Worker { tx: jtx, rx: rrx })
+}
+
+/// Run `f` on the worker thread: a panic is `Err((message, location))`, exceeding `ms` is
+/// `Err(("TIMEOUT", ""))` (the worker is abandoned - it may still be spinning - and replaced).
+fn guarded_timeout(ms: u64, f: impl FnOnce() -> Value + Send + 'static) -> JobResult {
+    let mut slot = WORKER.lock().unwrap_or_else(|p| p.into_inner());
+    if slot.is_none() {
+        *slot = spawn_worker();
+    }
+    let Some(w) = slot.as_ref() else {
+        return Err(("SPAWN-FAILED".into(), String::new()));
+    };
+    if w.tx.send(Box::new(f)).is_err() {
+        *slot = None;
+        return Err(("ABORTED".into(), String::new()));
+    }
+    match w.rx.recv_timeout(std::time::Duration::from_millis(ms)) {
+        Ok(r) => r,
+        Err(std::sync::mpsc::RecvTimeoutError::Timeout) => {
+            *slot = None;
+            Err(("TIMEOUT".into(), String::new()))
+        }
+        Err(std::sync::mpsc::RecvTimeoutError::Disconnected) => {
+            *slot = None;
+            Err(("ABORTED".into(), String::new()))
+        }
+    }
+}
 
 fn file_id(source: &str) -> String {
     for line in source.lines().take(3) {
